@@ -310,6 +310,10 @@ def bulk_interval_shapes(rng, normal_only=False):
     H = 2 ** 31
     out = [(1, 0, 3, 0), (1, 0, 0, 0), (2, 2, 5, 0), (2, 5, 2, 0), (3, 0, 6, 2), (3, 6, 0, -2), (3, 5, 5, -1), (3, 2, 9, 4),
            (3, 3, 0, -1), (3, 0, 3, 0), (3, 2, -3, -2), (3, H - 1, H - 4, -1), (3, H - 3, H, 2)]
+    # intervals that straddle the byte boundaries of ser32(i) (2^8, 2^16, 2^24 and a multiple of 2^24) and 2^31 - 1
+    for edge in (2 ** 8, 2 ** 16, 2 ** 24, 5 * 2 ** 24, 127 * 2 ** 24):
+        out.append((2, edge - 2, edge + 2, 0))
+    out.append((3, 2 ** 24 + 1, 2 ** 24 - 3, -1))
     if not normal_only:
         out += [(3, H + 1, H - 3, -1), (3, 2 ** 32 - 1, 5, -(2 ** 30)), (3, H + 2, H - 1, -2), (3, H - 2, H + 2, 1),
                 (3, H - 2, H + 3, 3), (2, H - 1, H + 1, 0), (3, H, H - 2, -1), (1, 0, 2, 0)]
